@@ -13,6 +13,23 @@ import (
 	"github.com/teleport-network/teleport/x/xibc/exported"
 )
 
+// validateInitialState checks what every client installation (create, upgrade, toggle) needs from the
+// proposal: a well-formed consensus state of the client's own type. The proposals validate only the
+// client state; a consensus state of another type is stored as an unreadable record (or, for a TSS
+// client, at height 0-0), and an ill-formed one makes the exported genesis fail its own validation.
+func validateInitialState(clientState exported.ClientState, consensusState exported.ConsensusState) error {
+	if clientState.ClientType() != consensusState.ClientType() {
+		return sdkerrors.Wrapf(
+			types.ErrInvalidClientType,
+			"consensus state of type %s does not match client type %s", consensusState.ClientType(), clientState.ClientType(),
+		)
+	}
+	if err := consensusState.ValidateBasic(); err != nil {
+		return sdkerrors.Wrap(types.ErrInvalidConsensus, err.Error())
+	}
+	return nil
+}
+
 // CreateClient creates a new client state and populates it with a given
 // client state and consensus state
 func (k Keeper) CreateClient(
@@ -21,6 +38,10 @@ func (k Keeper) CreateClient(
 	clientState exported.ClientState,
 	consensusState exported.ConsensusState,
 ) error {
+	if err := validateInitialState(clientState, consensusState); err != nil {
+		return err
+	}
+
 	k.SetClientState(ctx, chainName, clientState)
 	// verifies initial consensus state against client state and initializes client store with any client-specific metadata
 	// e.g. set ProcessedTime in Tendermint clients
@@ -68,6 +89,10 @@ func (k Keeper) UpgradeClient(
 		return sdkerrors.Wrapf(types.ErrInvalidClientType, "cannot upgrade client %s, client-type not match", chainName)
 	}
 
+	if err := validateInitialState(newClientState, newConsensusState); err != nil {
+		return err
+	}
+
 	if err := newClientState.UpgradeState(ctx, k.cdc, k.ClientStore(ctx, chainName), newConsensusState); err != nil {
 		return sdkerrors.Wrapf(types.ErrUpgradeClient, "cannot upgrade client %s", chainName)
 	}
@@ -112,6 +137,10 @@ func (k Keeper) ToggleClient(
 
 	if clientState.ClientType() == newClientState.ClientType() {
 		return sdkerrors.Wrapf(types.ErrInvalidClientType, "cannot toggle client %s, client-type can't be the same", chainName)
+	}
+
+	if err := validateInitialState(newClientState, newConsensusState); err != nil {
+		return err
 	}
 
 	// the records of the replaced client (consensus states of its type, its metadata) are not the
